@@ -795,10 +795,28 @@ class Analysis:
                         fm_ = L.sub(lf, rf)
                         ty = atom_types(x["a"][0], *( [x["a"][1]] if x.get("k") == "Bin" else []))
                         bad = None
+                        reqforms = []
                         for d in ds:
                             if not nonneg(d, fm_, ty) and not _quotient_of(x, lf):
                                 bad = "cannot show %s >= 0" % L.show(fm_)
-                                break
+                                # on this path the counter may hold a parameter's value (`space = buflen` in one arm of a
+                                # clamp): then the callers have to establish the bound
+                                sub_ = dict(fm_[0])
+                                c_ = fm_[1]
+                                for k_ in list(sub_):
+                                    for g in d:
+                                        if g.kind == "cmp" and g.op == "==" and g.key[0] == k_ and isinstance(g.key[2], str):
+                                            rf_ = L.lin(g.r)
+                                            if rf_ is not None and k_ not in rf_[0] and sk(g.r).get("k") not in ("Call", "Cond"):
+                                                co = sub_.pop(k_)
+                                                for a_, v_ in rf_[0].items():
+                                                    sub_[a_] = sub_.get(a_, 0) + co * v_
+                                                c_ += co * rf_[1]
+                                                break
+                                reqforms.append(({a_: v_ for a_, v_ in sub_.items() if v_}, c_))
+                        if bad is not None and reqforms and self.require(f, x, "M2", pp(x)[:60], reqforms, bad):
+                            self.sites.append(Site("M2", f, x, pp(x)[:60], True, "moved to the callers of %s: %s" % (f.name, bad)))
+                            continue
                         if bad is not None and self.require(f, x, "M2", pp(x)[:60], [fm_], bad):
                             self.sites.append(Site("M2", f, x, pp(x)[:60], True, "moved to the callers of %s: %s" % (f.name, bad)))
                             continue
